@@ -222,6 +222,13 @@ func c01Property(t *rapid.T) {
 		}
 		return nil
 	}
+	refuseLogons := false
+	s.r.FromAdminErr = func(m *quickfix.Message) quickfix.MessageRejectError {
+		if mt, _ := m.Header.GetString(35); mt == "A" && refuseLogons {
+			return quickfix.RejectLogon{Text: "refused by the application"}
+		}
+		return nil
+	}
 	if !s.logon(rapid.SampledFrom([]int{0, 0, 1, 3}).Draw(t, "lost-before-logon")) {
 		t.Fatalf("harness: logon failed\n%s", s.history())
 	}
@@ -270,6 +277,39 @@ func c01Property(t *rapid.T) {
 		"engineSend":     func(t *rapid.T) { s.engineSend(); s.flush() },
 		"disconnect": func(t *rapid.T) {
 			s.disconnect()
+			relogon()
+		},
+		"refusedLogon": func(t *rapid.T) {
+			// the connection drops; the next Logon - numbered at, below or above the expected number -
+			// is refused by the application (RejectLogon); then the regular logon follows. Whatever
+			// the refusal does, the expected number does not go backwards
+			s.disconnect()
+			if !s.connect() {
+				relogon()
+				return
+			}
+			T := s.r.T()
+			seq := T + rapid.SampledFrom([]int{0, 0, -1, -3, 2}).Draw(t, "refused-logon-number")
+			if seq < 1 {
+				seq = 1
+			}
+			o := peer.Opt{}
+			if seq < T && rapid.Bool().Draw(t, "refused-logon-possdup") {
+				o.PossDup, o.OrigSending = "Y", s.p.Stamp(time.Now().Add(-30*time.Second))
+			}
+			f := s.p.Frame("A", seq, s.p.LogonBody(30, false), o)
+			refuseLogons = true
+			ctx := s.ctxFor("in", f, false)
+			ctx.wellFormed = true
+			s.logf("inj %s (T=%d %s) - the application refuses it", vk.Show(f), ctx.tBefore, ctx.stateBefore)
+			st := s.r.In(f)
+			s.observe(st, ctx)
+			refuseLogons = false
+			mon.feat["logon-refused-by-the-application"] = true
+			if s.r.V.IsConnected() {
+				s.disconnect()
+			}
+			s.link, s.pendingReplays = nil, nil
 			relogon()
 		},
 	})
